@@ -93,6 +93,10 @@ func (r *Reader) readEntry() (*Entry, error) {
 				}
 				return nil, io.EOF
 			}
+			// A record that cannot be read ends the entry that was being
+			// collected: kept, its fragments would be completed by the
+			// fragments of a later entry once the caller reads on.
+			r.fragments = r.fragments[:0]
 			return nil, err
 		}
 
